@@ -3,7 +3,6 @@ package c11
 import (
 	"bytes"
 	"fmt"
-	"math/rand"
 	"os"
 	"path/filepath"
 	"strings"
@@ -48,7 +47,7 @@ func runPptxCase(c *fw.Ctx, dir string, i int) {
 	footerText := phrase(r, footerTok, 1+r.Intn(2))
 	dateOn, numOn, hdrOn, boxCopy := r.Intn(2) == 0, r.Intn(2) == 0, r.Intn(4) == 0, r.Intn(3) == 0
 	extra := make([][]pptxShape, n)
-	protected := map[string]bool{} // tokens that must survive
+	protected := map[string]bool{}  // tokens that must survive
 	phTokens := map[string]string{} // token -> placeholder type
 	must := map[string]int{}        // token -> occurrences that must go under F/HF
 	var desc []string
@@ -181,16 +180,18 @@ func runPptxCase(c *fw.Ctx, dir string, i int) {
 				}
 			}
 			if truthMode(mode) != "H" && n >= 2 {
-				for t, m := range must {
-					if m == n && cu[t] > 0 { // on every slide, and shown without exclusion
-						keep := 0
-						if t == footerTok {
-							keep = boxCopies
-						}
-						if cf[t] > keep {
-							c.Fail("", "office/pptx/survived/"+phTokens[t], id, fmt.Sprintf("pptx Text under %s: %s placeholder on every slide (token %s) still occurs %d time(s), %d text box(es) repeat it", mode, phTokens[t], t, cf[t], keep), detail)
-							return
-						}
+				// footer / date / slide-number placeholders are on every slide by construction
+				for t := range must {
+					if cu[t] == 0 {
+						continue // not shown without exclusion either
+					}
+					keep := 0
+					if t == footerTok {
+						keep = boxCopies
+					}
+					if cf[t] > keep {
+						c.Fail("", "office/pptx/survived/"+phTokens[t], id, fmt.Sprintf("pptx Text under %s: %s placeholders are on every slide, but token %s still occurs %d time(s) (%d text box(es) repeat it)", mode, phTokens[t], t, cf[t], keep), detail)
+						return
 					}
 				}
 			}
